@@ -43,6 +43,20 @@ func loadContracts(w *World) error {
 	if err := cf.resolveApplies(names); err != nil {
 		return err
 	}
+	fileOf := map[string]string{}
+	for n, f := range w.Funcs {
+		if !f.Pos().IsValid() {
+			continue
+		}
+		file := w.Fset.Position(f.Pos()).Filename
+		if i := strings.LastIndex(file, "/"); i >= 0 {
+			file = file[i+1:]
+		}
+		fileOf[n] = file
+	}
+	if err := cf.resolveFileApplies(fileOf); err != nil {
+		return err
+	}
 	// ghosts used by the obligation families
 	if cf.ghost("pendErr") == nil {
 		cf.Ghosts = append(cf.Ghosts, &Ghost{Name: "pendErr", Sort: "Iface", Init: "nil-iface"})
